@@ -51,6 +51,11 @@ type Step struct {
 	Op   string `json:"op"` // put, get, delete
 	Addr int    `json:"addr"`
 	Cred Cred   `json:"cred"`
+	// Key, when set, is the server address used instead of addrs[Addr] (a key of
+	// another form that the document holds, e.g. https://legacy.io/v1/)
+	Key string `json:"key,omitempty"`
+	// Same (put): store the credential Get returns for the address right now
+	Same bool `json:"same,omitempty"`
 }
 
 // Case is a document plus a history.
@@ -114,6 +119,13 @@ func genDoc(t *rapid.T) Doc {
 func genCase(t *rapid.T) Case {
 	c := Case{Doc: genDoc(t)}
 	n := rapid.IntRange(1, 15).Draw(t, "nSteps")
+	if !c.Doc.Absent && rapid.IntRange(0, 39).Draw(t, "hugeDoc") == 23 {
+		// (main leg only, short histories: every step re-reads the document)
+		c.Doc.Unknown = append(c.Doc.Unknown, "huge")
+		if n > 3 {
+			n = 3
+		}
+	}
 	for i := 0; i < n; i++ {
 		s := Step{Addr: rapid.IntRange(0, len(addrs)-1).Draw(t, "addr")}
 		switch r := rapid.IntRange(0, 9).Draw(t, "op"); {
@@ -125,7 +137,26 @@ func genCase(t *rapid.T) Case {
 		default:
 			s.Op = "delete"
 		}
+		if s.Op != "get" && rapid.IntRange(0, 5).Draw(t, "otherKey") == 0 {
+			// address the entry of another key form directly
+			s.Key = rapid.SampledFrom(otherKeys).Draw(t, "stepKey")
+		}
+		if s.Op == "put" && rapid.IntRange(0, 5).Draw(t, "same") == 0 {
+			s.Same = true
+		}
 		c.Steps = append(c.Steps, s)
+	}
+	// a host known only through a key of another form: store what Get answers for the
+	// bare host under the bare host, drop the other key, ask again
+	for _, e := range c.Doc.Entries {
+		if !c.Doc.NoAuths && e.Key != toHostname(e.Key) && rapid.IntRange(0, 2).Draw(t, "legacyScenario") == 0 {
+			for i, a := range addrs {
+				if a == toHostname(e.Key) {
+					c.Steps = append(c.Steps, Step{Op: "put", Addr: i, Same: true}, Step{Op: "delete", Addr: i, Key: e.Key}, Step{Op: "get", Addr: i})
+				}
+			}
+			break
+		}
 	}
 	return c
 }
@@ -155,6 +186,9 @@ func (d Doc) render() []byte {
 			parts = append(parts, fmt.Sprintf(`%q: false`, name))
 		case "dupkeys":
 			parts = append(parts, fmt.Sprintf(`%q: {"k": 1, "k": 2}`, name))
+		case "huge":
+			// a document well over a megabyte
+			parts = append(parts, fmt.Sprintf(`%q: %q`, name, strings.Repeat("0123456789abcdef", 80000)))
 		}
 	}
 	if d.CredsStore != "" {
@@ -291,6 +325,20 @@ func runCase(c Case) (res vt.Result, fail *vt.Fail) {
 	lastPut := map[string]bool{}
 	for i, st := range c.Steps {
 		addr := addrs[st.Addr]
+		if st.Key != "" {
+			addr = st.Key
+		}
+		if st.Op == "put" && st.Same {
+			cur, err := fs.Get(ctx, addr)
+			if err != nil {
+				return res, vt.Failf("C18/get-failed", "step %d: %v", i, err)
+			}
+			if cur == auth.EmptyCredential || strings.Contains(cur.Username, ":") {
+				continue
+			}
+			st.Cred = Cred{User: cur.Username, Pass: cur.Password, Refresh: cur.RefreshToken, Access: cur.AccessToken}
+			res.Classes = append(res.Classes, "put-of-the-credential-already-answered")
+		}
 		when := fmt.Sprintf("step %d (%s %s)", i, st.Op, addr)
 		var before []byte
 		if b, err := os.ReadFile(path); err == nil {
@@ -414,6 +462,11 @@ func runCase(c Case) (res vt.Result, fail *vt.Fail) {
 	res.NonTrivial = len(c.Doc.Unknown) > 0 && foreignUnknown && putAfterPut && deleted
 	if len(c.Doc.Unknown) > 0 {
 		res.Classes = append(res.Classes, "unknown-top-level-members")
+	}
+	for _, u := range c.Doc.Unknown {
+		if u == "huge" {
+			res.Classes = append(res.Classes, "document-over-1MiB")
+		}
 	}
 	if foreignUnknown {
 		res.Classes = append(res.Classes, "foreign-entry-with-unknown-fields")
